@@ -11,7 +11,7 @@
    the caller's options object, or the defaults for a nil pointer.
    [to_core_claim O c caller] returns (result, caller's object as left behind). *)
 From Coq Require Import ZArith List String Permutation.
-From GSP Require Import Base.Prelude Claim.Model Claim.Theory.
+From GSP Require Import Base.Prelude Claim.Model Claim.Theory Merklizer.SliceModel Claim.OptsSlice.
 Import ListNotations.
 Open Scope Z_scope.
 
@@ -134,3 +134,17 @@ Theorem C05_expiration_layout :
   get_field (i0 cl) 131 1 = 1.
 Proof. exact expiration_layout. Qed.
 Print Assumptions C05_expiration_layout.
+
+(* options purity at the level of Go slices (heap of backing arrays, slice headers): for every
+   heap, every history of calls with any of the caller's MerklizerOpts slices - slices that may share
+   one backing array with spare capacity - the heap after the history is the heap before it, every
+   slice reads as before up to its CAPACITY, and each call handed Merklize exactly the view of its
+   slice.  (The seeded `append(opts.MerklizerOpts, x)` is refuted: OptsSlice.append_variant_refuted;
+   it keeps the promise only for slices without spare capacity: OptsSlice.append_variant_full_slice.) *)
+Theorem C05_options_backing_array_untouched :
+  forall (A : Type) (dflt : A) (slack : nat -> nat) (calls : list slice) (h : heap A),
+  fst (run_mz A dflt slack (VRepo A) h calls) = h /\
+  snd (run_mz A dflt slack (VRepo A) h calls) = map (view A h) calls /\
+  forall t, view A (fst (run_mz A dflt slack (VRepo A) h calls)) (full t) = view A h (full t).
+Proof. exact backing_array_untouched. Qed.
+Print Assumptions C05_options_backing_array_untouched.
